@@ -11,6 +11,7 @@ import (
 	"encoding/base64"
 	"encoding/hex"
 	"encoding/json"
+	"errors"
 	"fmt"
 	"hash"
 	"io"
@@ -168,7 +169,7 @@ func genEnc(t *rapid.T) encCase {
 				s[i] -= 32
 			}
 		}
-		switch rapid.IntRange(0, 4).Draw(t, "mut") {
+		switch rapid.IntRange(0, 6).Draw(t, "mut") {
 		case 0:
 			if len(s) > 0 {
 				s = s[:rapid.IntRange(0, len(s)-1).Draw(t, "cut")]
@@ -177,6 +178,14 @@ func genEnc(t *rapid.T) encCase {
 			if len(s) > 0 {
 				s[rapid.IntRange(0, len(s)-1).Draw(t, "pos")] = rapid.SampledFrom([]byte("gG/:@`\x00\xff ")).Draw(t, "bad")
 			}
+		case 3: // two adjacent bad characters (both halves of one pair, or straddling two pairs)
+			if len(s) >= 2 {
+				i := rapid.IntRange(0, len(s)-2).Draw(t, "pos")
+				s[i] = rapid.SampledFrom([]byte("xgG:\r \x00\xff")).Draw(t, "bad1")
+				s[i+1] = rapid.SampledFrom([]byte("yzZ/\n@\x01\xfe")).Draw(t, "bad2")
+			}
+		case 4: // short strings over a hostile alphabet
+			s = []byte(rapid.StringOfN(rapid.RuneFrom([]rune("0123456789abcdefABCDEFxXgG \r\n:")), 0, 6, -1).Draw(t, "hostile"))
 		case 2: // odd length with an invalid last or earlier char
 			s = append(s, rapid.SampledFrom([]byte("0afgZ")).Draw(t, "odd"))
 			if len(s) > 1 && rapid.Bool().Draw(t, "alsobad") {
@@ -284,13 +293,22 @@ type digCase struct {
 	Data   g.B
 	Key    g.B
 	Chunks []int
+	FailAt int // >= 0: before each healthy stream call, the same helper is fed a reader that fails after this many bytes
+}
+
+func dataLen(t *rapid.T) int {
+	if rapid.IntRange(0, 29).Draw(t, "large") == 0 {
+		return rapid.SampledFrom([]int{32767, 32768, 32769, 40000}).Draw(t, "largeLen") // around io.Copy's buffer
+	}
+	return rapid.OneOf(rapid.IntRange(0, 300), rapid.SampledFrom([]int{0, 55, 56, 63, 64, 65, 111, 112, 127, 128, 129})).Draw(t, "ndata")
 }
 
 func genDig(t *rapid.T) digCase {
 	return digCase{
-		Data:   g.BytesLen(rapid.OneOf(rapid.IntRange(0, 300), rapid.SampledFrom([]int{0, 55, 56, 63, 64, 65, 111, 112, 127, 128, 129})).Draw(t, "ndata")).Draw(t, "data"),
+		Data:   g.BytesLen(dataLen(t)).Draw(t, "data"),
 		Key:    g.BytesLen(rapid.OneOf(rapid.IntRange(0, 150), rapid.SampledFrom([]int{0, 63, 64, 65, 127, 128, 129})).Draw(t, "nkey")).Draw(t, "key"),
 		Chunks: rapid.SliceOfN(rapid.IntRange(0, 70), 0, 8).Draw(t, "chunks"),
+		FailAt: rapid.OneOf(rapid.Just(-1), rapid.IntRange(0, 80)).Draw(t, "failAt"),
 	}
 }
 
@@ -320,6 +338,10 @@ func (c *chunkReader) Read(p []byte) (int, error) {
 	}
 	return n, nil
 }
+
+type errReader struct{}
+
+func (errReader) Read([]byte) (int, error) { return 0, errors.New("injected read fault") }
 
 func runDig(c digCase, r *pb.Rec) error {
 	in := append([]byte(nil), c.Data...)
@@ -351,6 +373,11 @@ func runDig(c digCase, r *pb.Rec) error {
 			return fmt.Errorf("%s(%x): %q %q %q %q want %q", o.name, c.Data, o.gotB, o.gotS, o.strB, o.strS, w)
 		}
 		if o.stream != nil {
+			if c.FailAt >= 0 {
+				// a stream that breaks half-way must not influence later calls (pooled/reused hash state)
+				junk := bytes.Repeat([]byte{0x5a}, c.FailAt)
+				o.stream(io.MultiReader(bytes.NewReader(junk), errReader{}))
+			}
 			got, err := o.stream(&chunkReader{data: append([]byte(nil), c.Data...), chunks: append([]int(nil), c.Chunks...)})
 			if err != nil || string(got) != w {
 				return fmt.Errorf("%sStream(%x chunks %v) = %q,%v want %q", o.name, c.Data, c.Chunks, got, err, w)
@@ -374,6 +401,8 @@ func runDig(c digCase, r *pb.Rec) error {
 	}
 	r.NonTrivialIf(len(c.Data) > 64)
 	r.ClassIf(len(c.Key) > 64, "hmac key longer than block")
+	r.ClassIf(len(c.Data) > 32000, "data larger than the copy buffer")
+	r.ClassIf(c.FailAt > 0, "healthy stream after a broken one")
 	return nil
 }
 
@@ -485,7 +514,7 @@ func init() {
 	pb.Register("hex_base64", pb.Options{Base: 30000, Required: []string{"invalid byte in odd-length input", "odd length", "base64 corrupt"},
 		Rule: "hex/base64 encode and decode of valid and corrupted inputs (cut, bad char at any position, odd length with and without an invalid char); oracle encoding/hex, encoding/base64 incl. decoded prefix and error text, all four string/[]byte/ToString variants, input unchanged; non-trivial = error case or > 2 bytes"},
 		genEnc, runEnc)
-	pb.Register("digests", pb.Options{Base: 3000, Required: []string{"hmac key longer than block"},
+	pb.Register("digests", pb.Options{Base: 3000, Required: []string{"hmac key longer than block", "healthy stream after a broken one", "data larger than the copy buffer"},
 		Rule: "data 0..300 bytes, HMAC keys 0..150 bytes, stream form through a reader with drawn chunk sizes (incl. 0-byte reads and data+EOF); oracle crypto/* digests in lower-case hex; non-trivial = data longer than one block"},
 		genDig, runDig)
 	pb.Register("ipv4", pb.Options{Base: 30000, Rule: "boundary octets, one or two non-zero octets, uniform uint32; oracle dotted-quad of the octets and IPv4ToLong(LongToIPv4(x)) == x; non-trivial = x > 255"},
